@@ -180,4 +180,11 @@ theorem qualify_as_filter_on_window_column (w : Table → Row → Val) (cond : R
 example : qualifySem (fun t _ => .int t.length) (fun r => gt3 (col 1 r) (.int 1)) id [[.int 5], [.int 6]]
     = [[.int 5], [.int 6]] := by decide
 
+/-- clean-tree finding (`eliminate_qualify` keeps ORDER BY / LIMIT *inside* the subquery it filters): QUALIFY then
+    LIMIT is not LIMIT then filter — two rows, window value = position, condition `w <= 1`, LIMIT 1 -/
+theorem qualify_limit_does_not_commute :
+    limitOffset (some 1) 0 (qualifySem (fun _ r => col 0 r) (fun r => gt3 (col 1 r) (.int 1)) id [[.int 1], [.int 2]])
+      ≠ qualifyRewritten (fun _ r => col 0 r) (fun r => gt3 (col 1 r) (.int 1)) id 1
+          (limitOffset (some 1) 0 [[.int 1], [.int 2]]) := by decide
+
 end SqlglotModel.Properties.C02
